@@ -17,7 +17,7 @@ for log in sys.argv[1:]:
         base_ok = re.search(r"unchanged: demo: test result: ok", b) is not None
         lib_ok = re.search(r"changed:   lib:  test result: ok\. 674 passed", b) is not None
         feat_ok = re.search(r"all-features build errors: 0", b) is not None
-        demo_fail = re.search(r"changed:   demo: test result: FAILED", b) is not None
+        demo_fail = re.search(r"changed:   demo: (test result: FAILED|error: test failed)", b) is not None
         rc = re.search(r"RESULT rc=(\d+)", b)
         rc = int(rc.group(1)) if rc else None
         viol = re.findall(r"VIOLATION property=\S+ replay=(\S+)", b)
@@ -32,7 +32,8 @@ for log in sys.argv[1:]:
             shutil.copy(os.path.join(src, f), dst)
         meta = json.load(open(os.path.join(src, "meta.json")))
         meta["property"] = prop
-        meta["confirmed_by_me"] = {"how": "lib/confirm_mutant.sh in a scratch worktree of /repo HEAD", "unchanged_tree_demo": "passes", "changed_tree_lib_tests": "674 passed", "changed_tree_all_features_build": "ok", "changed_tree_demo": "FAILS"}
-        meta["check"] = {"cmd": "./check %s --tier quick (patch applied to /repo, undone afterwards)" % prop, "exit": rc, "caught": rc == 1, "violations": [os.path.basename(v) for v in viol][:6], "summary": (summary[0] if summary else "")[:300]}
+        meta["confirmed_by_me"] = {"how": "lib/confirm_mutant.sh / lib/lane_mutants.sh in a scratch worktree of /repo HEAD", "unchanged_tree_demo": "passes", "changed_tree_lib_tests": "674 passed", "changed_tree_all_features_build": "ok", "changed_tree_demo": "FAILS"}
+        lane = "lane-" in log
+        meta["check"] = {"cmd": ("VERIF_REPO=<scratch worktree of /repo HEAD with the patch applied> ./check %s --tier quick (lib/lane_mutants.sh; /repo itself untouched)" if lane else "./check %s --tier quick (patch applied to /repo, undone afterwards)") % prop, "exit": rc, "caught": rc == 1, "violations": [os.path.basename(v) for v in viol][:6], "summary": (summary[0] if summary else "")[:300]}
         json.dump(meta, open(os.path.join(dst, "meta.json"), "w"), indent=1)
         print("%s %s: confirmed, check exit %s (%s)" % (prop, mid, rc, "CAUGHT" if rc == 1 else "MISSED"))
